@@ -12,7 +12,9 @@ EXE == M(-1, "E", FALSE)
 T(p0, p1, p2, p3) == [s \in Slots |-> CASE s = 0 -> p0 [] s = 1 -> p1 [] s = 2 -> p2 [] OTHER -> p3]
 NoMigr == [s \in Slots |-> None]
 St1(n, s, q) == [NoStale EXCEPT ![n][s] = q]
-Ch(t, mg, st, lag, dn) == [truth |-> t, migr |-> mg, stale |-> st, lag |-> lag, down |-> dn]
+Ch(t, mg, st, lag, dn) == [truth |-> t, migr |-> mg, stale |-> st, lag |-> lag, down |-> dn, rt |-> t, mfail |-> {}]
+\* round 2: the nodes report the ownership rt (which may be wrong from the start) and the primaries mf as failed
+ChR(t, rt, mg, st, mf) == [truth |-> t, migr |-> mg, stale |-> st, lag |-> FALSE, down |-> {}, rt |-> rt, mfail |-> mf]
 \* slot 0 leaves a: to a known node, to the unknown node d, with a chain of stale views (a -> c -> b), with a naming itself
 \* once, with a chain of length three (a -> b -> c -> d); the report is fresh or still the old one
 MoveChanges ==
@@ -95,6 +97,85 @@ ThoroughCalls ==
 DeniedCalls ==
     {C("multi", <<M(1, "r", FALSE), M(0, "r", FALSE)>>, <<<<"retry">>, <<>>>>, {}, {1}),
      C("multicache", <<M(1, "r", FALSE), M(0, "r", FALSE)>>, <<<<"retry">>, <<>>>>, {}, {1})}
+
+\* ------------------------------------------------------------------------------------------------- round 2
+\* Transactions whose slot the client has to look up first (refresh on pick) and which are redirected in the same DoMulti:
+\* slot 3 gets an owner; X1 the owner is migrating it (ASK), X2 the nodes report a as owner although it is b (MOVED right
+\* after the refresh), X3 ownership is fragmented (a: 0 and 2, b: 1 and 3 - several ranges of one master) and b is migrating
+\* slot 3 to the unknown node d
+T4(p0, p1, p2, p3) == T(p0, p1, p2, p3)
+InitTxChanges ==
+    {ChR(T4("a", "b", "c", "b"), T4("a", "b", "c", "b"), [NoMigr EXCEPT ![3] = "c"], NoStale, {}),
+     ChR(T4("a", "b", "c", "b"), T4("a", "b", "c", "a"), NoMigr, NoStale, {}),
+     ChR(T4("a", "b", "a", "b"), T4("a", "b", "a", "b"), [NoMigr EXCEPT ![3] = "d"], NoStale, {})}
+InitTxCalls ==
+    {C("multi", <<MUL, M(3, "w", FALSE), EXE>>, NoInj(3), mg, {}) : mg \in {{}, {2}}}
+    \cup {C("multi", <<M(3, "r", FALSE), MUL, M(3, "w", FALSE), M(3, "r", FALSE), EXE, M(3, "w", FALSE)>>, NoInj(6), mg, {}) : mg \in {{}, {3}, {3, 4}, {1, 6}}}
+    \cup {C("multi", <<M(3, "r", FALSE), M(2, "w", FALSE), M(3, "w", FALSE)>>, NoInj(3), mg, {}) : mg \in {{}, {1}}}
+    \cup {C("do", <<M(3, "r", FALSE)>>, <<<<>>>>, mg, {}) : mg \in {{}, {1}}}
+
+\* Two-hop redirects of a transaction: H1 ASK to b, which does not know that it imports the slot and answers MOVED c
+\* (c sends it back to the owner a, a says ASK b again, now b serves); H2 the same with b naming the owner a directly;
+\* H3 MOVED (client has the old owner a) to b, which is migrating the slot to c: ASK; H4 MOVED to the unknown node d,
+\* which is migrating to b: ASK
+HopChanges ==
+    {Ch(Truth0, [NoMigr EXCEPT ![0] = "b"], St1("b", 0, <<"c">>), FALSE, {}),
+     Ch(Truth0, [NoMigr EXCEPT ![0] = "b"], St1("b", 0, <<"a">>), FALSE, {}),
+     Ch(T("b", "b", "c", None), [NoMigr EXCEPT ![0] = "c"], NoStale, TRUE, {}),
+     Ch(T("d", "b", "c", None), [NoMigr EXCEPT ![0] = "b"], NoStale, TRUE, {})}
+HopCalls ==
+    {C("multi", <<M(0, "r", FALSE), MUL, M(0, "w", FALSE), M(0, "r", FALSE), EXE>>, NoInj(5), mg, {}) : mg \in {{3}, {3, 4}, {1, 3, 4}}}
+    \cup {C("multi", <<MUL, M(0, "w", FALSE), EXE, M(0, "r", FALSE)>>, NoInj(4), {2}, {}),
+          C("multi", <<M(0, "r", FALSE), M(1, "w", FALSE), M(0, "w", FALSE)>>, NoInj(3), {1, 3}, {}),
+          C("multicache", <<M(0, "r", FALSE), M(1, "r", FALSE), M(0, "r", FALSE)>>, NoInj(3), {1, 3}, {})}
+OptsHop == {O(mm, "none", "dflt", 0, TRUE) : mm \in {0, 3}}
+
+\* Consecutive batches on one client (the retry bookkeeping objects are pooled and reused): batches whose members are
+\* ASK-redirected at several positions, two calls in a row
+PoolChanges == {Ch(Truth0, [NoMigr EXCEPT ![0] = "b"], NoStale, FALSE, {})}
+PoolCalls ==
+    {C(k, <<M(0, "r", FALSE), M(0, "r", FALSE), M(0, "r", FALSE)>>, NoInj(3), mg, {}) : k \in {"multi", "multicache"}, mg \in {{1, 2, 3}, {2, 3}}}
+    \cup {C(k, <<M(1, "r", FALSE), M(0, "r", FALSE), M(0, "r", FALSE)>>, NoInj(3), {2, 3}, {}) : k \in {"multi", "multicache"}}
+OptsOne == {O(0, "none", "dflt", 0, TRUE)}
+
+\* Commands without a key and the streaming calls (C21): PUB = a command without a key for which SendToReplicas says no,
+\* ECH = one for which it says yes
+PUB == M(-1, "n", FALSE)
+ECH == M(-1, "n", TRUE)
+StreamCalls ==
+    {C("stream", <<M(s, c, o)>>, <<<<>>>>, {}, {}) : s \in {0, 1}, c \in {"r", "w"}, o \in BOOLEAN}
+    \cup {C("multistream", <<M(0, "r", TRUE), M(0, "r", o)>>, NoInj(2), {}, {}) : o \in BOOLEAN}
+    \cup {C("multistream", <<M(1, "r", TRUE), x>>, NoInj(2), {}, {}) : x \in {PUB, ECH}}
+    \cup {C("multistream", <<x, M(0, "r", TRUE), M(0, "r", TRUE)>>, NoInj(3), {}, {}) : x \in {PUB, ECH}}
+    \cup {C("multi", <<M(1, "r", TRUE), x, M(1, "r", TRUE)>>, NoInj(3), {}, {}) : x \in {PUB, ECH}}
+    \cup {C("multi", <<ECH, ECH>>, NoInj(2), {}, {}), C("multi", <<M(1, "r", TRUE), M(0, "r", TRUE)>>, NoInj(2), {}, {})}
+\* the master of b's (resp. a's) shard is reported as failed while its replicas are online: the slot has no owner
+FailChanges == {ChR(Truth0, Truth0, NoMigr, NoStale, {"b"}), ChR(Truth0, Truth0, NoMigr, NoStale, {"a"})}
+FailCalls ==
+    {C("do", <<M(s, c, o)>>, <<<<>>>>, {}, {}) : s \in {0, 1}, c \in {"r", "w"}, o \in BOOLEAN}
+    \cup {C("multi", <<M(1, "w", FALSE), M(0, "r", TRUE)>>, NoInj(2), {}, {}),
+          C("multicache", <<M(1, "r", TRUE), M(2, "r", FALSE)>>, NoInj(2), {}, {})}
+OptsFail == {O(0, "sendto", "rns", 1, TRUE), O(0, "sendto", "rs", 0, TRUE), O(0, "sendto", "dflt", 0, TRUE),
+             O(0, "replicaonly", "dflt", 0, TRUE), O(0, "none", "dflt", 0, TRUE)}
+OptsStream == {O(0, "sendto", "rns", si, TRUE) : si \in {0, 1, 7}} \cup {O(0, "sendto", "rs", 0, TRUE), O(0, "replicaonly", "dflt", 0, TRUE), O(0, "none", "dflt", 0, TRUE)}
+
+\* C19 ingredients: the redirect budget over MOVED -> retryable error -> MOVED (the owner b answers LOADING once or twice),
+\* an ASK to a node the client has never heard of followed by another command for the slot
+BudgetChanges == {Ch(T("b", "b", "c", None), NoMigr, NoStale, TRUE, {}), Ch(T("d", "b", "c", None), NoMigr, NoStale, TRUE, {})}
+BudgetCalls == {C(k, <<M(0, "r", FALSE)>>, <<ij>>, {}, {}) : k \in {"do", "docache"}, ij \in {<<"retry">>, <<"retry", "retry">>}}
+OptsBudget == {O(mm, "none", "dflt", 0, TRUE) : mm \in {1, 2, 3}}
+AskNewChanges == {Ch(Truth0, [NoMigr EXCEPT ![0] = "d"], NoStale, FALSE, {})}
+AskNewCalls == {C(k, <<M(0, "r", FALSE)>>, <<<<>>>>, mg, {}) : k \in {"do", "docache"}, mg \in {{}, {1}}}
+               \cup {C("multi", <<M(0, "r", FALSE), M(1, "w", FALSE), M(0, "w", FALSE)>>, NoInj(3), mg, {}) : mg \in {{}, {1}}}
+
+\* the first call looks for slot 3 (nobody owns it): the refresh it forces makes the client learn the report with the failed master
+FailCalls2 == FailCalls \cup {C("do", <<M(3, "r", FALSE)>>, <<<<>>>>, {}, {})}
+FailFirst == (calls = 0 /\ ph # "idle") => (changes = 1 /\ call.mem[1].s = 3)
+\* fragmented ownership (every master appears in two CLUSTER SLOTS entries / owns two ranges of its shard)
+FragChanges == {ChR(T4("a", "b", "a", "b"), T4("a", "b", "a", "b"), mg, NoStale, {}) : mg \in {NoMigr, [NoMigr EXCEPT ![3] = "d"]}}
+FragCalls == {C("do", <<M(s, "r", FALSE)>>, <<<<>>>>, mg, {}) : s \in {2, 3}, mg \in {{}, {1}}}
+             \cup {C("multi", <<M(3, "r", FALSE), M(2, "w", FALSE), M(3, "w", FALSE), M(1, "r", FALSE)>>, NoInj(4), {}, {}),
+                   C("multicache", <<M(3, "r", FALSE), M(2, "r", FALSE), M(0, "r", FALSE)>>, NoInj(3), {}, {})}
 
 \* scenario generation: every finished behaviour is printed with the results Cluster.tla predicts for each call
 GenDone == (ph = "idle" /\ calls = MaxCalls /\ ~lazy) => PrintT(<<"CASE", ToJson([opt |-> opt, script |-> script])>>)
